@@ -69,6 +69,7 @@ def run(repo, rep):
     rule_interface(repo, rep)
     rule_pairing(repo, rep)
     rule_gate(repo, rep)
+    rule_round3(repo, rep)
     rule_option_names(repo, rep, tm)
     rule_quant_clone(repo, rep)
     if rep.tier == "thorough":
@@ -356,6 +357,40 @@ def rule_quant_clone(repo, rep):
                                 not any(isinstance(a, ast.Attribute) and norm(a.value) == "self" and a.attr != sl and a.attr in slots for a in ast.walk(v)) for v in vals)
         rep.check(ok, "C11-d", site, f"clone copies slot `{sl}` from self.{sl}", "; ".join(norm(v) for v in vals) or "slot not copied")
     rep.check(len(slots) >= 8, "C11-d", site, "slots enumerated", str(len(slots)))
+
+
+def rule_round3(repo, rep):
+    from .shared import require_conjuncts
+
+    # element types: DataType.<kind><bits> is constructed with that many bits (the inverse type map is keyed by (kind, bits):
+    # two names with equal bits collide and the later row wins when tensors are written)
+    dt = repo.mod("data_type")
+    n = 0
+    for st in dt.tree.body:
+        if isinstance(st, ast.Assign) and isinstance(st.targets[0], ast.Attribute) and norm(st.targets[0].value) == "DataType" and isinstance(st.value, ast.Call) and call_name(st.value) == "DataType":
+            m_ = re.fullmatch(r"[a-z]+?(\d+)", st.targets[0].attr)
+            if not m_ or len(st.value.args) < 2:
+                continue
+            n += 1
+            bits = try_fold(st.value.args[1])
+            rep.check(bits == int(m_.group(1)), "C11-b", "ethosu/vela/data_type.py", f"DataType.{st.targets[0].attr} has {m_.group(1)} bits", f"constructed with {bits} bits: it compares and hashes equal to its {bits}-bit sibling, "
+                      "so the writer's inverse type map sends one of the two element types to the other's TensorType")
+    rep.check(n >= 12, "C11-b", "ethosu/vela/data_type.py", "sized element types found", str(n))
+    # a slice read is folded into the consumers only if *every* consumer can take it
+    go = repo.mod("tflite_graph_optimiser")
+    rs = go.func("remove_SplitSliceRead")
+    q = [c for c in ast.walk(rs) if isinstance(c, ast.Call) and isinstance(c.func, ast.Name) and c.func.id in ("all", "any") and c.args and isinstance(c.args[0], ast.GeneratorExp)
+         and "consumer_list" in str(norm(c.args[0].generators[0].iter))]
+    if len(q) != 1:
+        raise AnalysisError("remove_SplitSliceRead: quantifier over the consumers not found")
+    site = "ethosu/vela/tflite_graph_optimiser.py:remove_SplitSliceRead"
+    rep.check(q[0].func.id == "all", "C11-e", site, "the slice read moves into the consumers only if all of them qualify", "quantifier is any(): the producer is removed although a CPU consumer still needs the sliced tensor, which nothing produces any more")
+    require_conjuncts(rep, "C11-e", site, q[0].args[0].elt, ["consumer is not None", "consumer.run_on_npu", "consumer.type not in memory_only_ops"], "a consumer qualifies",
+                      "a CPU-resident (or absent) consumer is handed a read offset it never applies")
+    # an activation is only folded into an operator that runs on the NPU [shared with C16-e]
+    from . import c16
+
+    rep.run_borrowed(c16, {"C16-e": "C11-e"}, repo)
 
 
 def rule_gate(repo, rep):
